@@ -471,15 +471,17 @@ static const char* _jbl_parse_value(
         char *pe;
         errno = 0;
         node->vi64 = strtoll(p, &pe, 0);
-        if ((errno == ERANGE) && (pe != p) && ((*pe == '.') || (*pe == 'e') || (*pe == 'E'))) {
-          errno = 0; // integer part beyond int64 of a number with fraction or exponent: read as double below
+        bool big = false;
+        if ((errno == ERANGE) && (pe != p)) {
+          errno = 0; // digits beyond int64 (the printer writes such text for doubles >= 2^63): read as double below
+          big = true;
         } else if ((pe == p) || (errno == ERANGE)) {
           if (*p != '.' && !((*p == '-' || *p == '+') && *(p + 1) == '.')) {
             ctx->rc = JBL_ERROR_PARSE_JSON;
             return 0;
           }
         }
-        if ((*pe == '.') || (*pe == 'e') || (*pe == 'E') || (*pe == '-') || (*pe == '+')) {
+        if (big || (*pe == '.') || (*pe == 'e') || (*pe == 'E') || (*pe == '-') || (*pe == '+')) {
           node->type = JBV_F64;
           node->vf64 = iwstrtod(p, &pe);
           if ((pe == p) || (errno == ERANGE)) {
